@@ -47,7 +47,9 @@ def run(chk: harness.Check):
         "unit/fraction index is consumed (duplicate detection) or is a reviewed override; D3 re-derives, from units.toml alone, the key "
         "space the builder will index (names, symbols, aliases and their declared SI expansions) and checks it is collision-free, that best "
         "lists name units of their own quantity and system, and that fraction entries name existing units; D4 compares the key paths used in "
-        "units.toml with the string keys build.rs reads. Necessary conditions of 'consistent or rejected'; layer semantics are not decided.")
+        "units.toml with the string keys build.rs reads; D5-D7 pin the empty-best rejection, alias carry-over and remove→edit→add re-indexing order of the extend "
+        "machinery; D8: in finish the best lists and the fractions configuration are computed after apply_extend_groups, which follows SI expansion; D9: "
+        "prefixed units are regenerated whole from the edited base unit (ratio = base.ratio * prefix.ratio()). Necessary conditions of 'consistent or rejected'; layer semantics are not decided.")
     chk.trusted = ["tables/panics.toml, narrow_arith.toml, progress.toml", "tomllib parse of units.toml", "synfacts extraction of build.rs string keys"]
     regions, entries = builder_regions(F)
     chk.analysed = {"facts": th, "builder_entry_functions": len(entries), "regions": len(regions)}
@@ -60,6 +62,9 @@ def run(chk: harness.Check):
     d5_empty_best(chk, F)
     d6_alias_carry_over(chk, F)
     d7_reindex_order(chk, F)
+    d8_finish_order(chk, F)
+    import c09
+    c09.d6_si_expansion(chk, F, "C16.D9-si-expansion")
     d3_shipped(chk)
     d4_build_keys(chk)
 
@@ -169,7 +174,8 @@ def d7_reindex_order(chk, F):
         return
     f = fs[0]
     rem = [b for b, t in f.calls() if (callee_key(t) or "").endswith("UnitIndex>::remove_unit_rec")]
-    edits = [b for b, t in f.calls() if (callee_key(t) or "").endswith("builder::join_alias_vec")]
+    from cfgq import calls_reaching
+    edits = calls_reaching(F, f, "builder::join_alias_vec", stop=("UnitIndex>::remove_unit_rec", "UnitIndex>::add_unit", "builder::update_expanded_units"))
     adds = [b for b, t in f.calls() if (callee_key(t) or "").endswith("UnitIndex>::add_unit")]
     heads = [b for b, t in f.calls() if (callee_key(t) or "").endswith("Iterator>::next") or (callee_key(t) or "").endswith("Iterator::next")]
     if len(rem) != 1 or not edits or not adds:
@@ -186,6 +192,39 @@ def d7_reindex_order(chk, F):
                sample=f"{f.where(r)}: remove_unit_rec dominates every join_alias_vec and cannot follow one within an iteration")
     chk.expect(ok_add, "C16.D7-reindex-order", "apply_extend_groups|re-add after edit", f.where(adds[0]),
                "an edited unit is not added back to the index after the edit", sample=f"{f.where(adds[0])}: add_unit reachable after every edit")
+
+
+def d8_finish_order(chk, F):
+    """ConverterBuilder::finish derives the best-unit lists (sorted by ratio, thresholds relative to the smallest unit), the
+    fractions configuration and the per-quantity index from the unit table: each of those readers must come after
+    apply_extend_groups, which is the last writer of ratios / names — otherwise they describe the pre-extend units."""
+    from cfgq import calls_reaching
+    fs = [g for g in F.find("ConverterBuilder::finish") if not g.is_closure()]
+    if len(fs) != 1:
+        chk.fail("anchor-missing", "ConverterBuilder::finish", "", "anchor-missing: ConverterBuilder::finish not found")
+        return
+    f = fs[0]
+    ext = calls_reaching(F, f, "builder::apply_extend_groups")
+    if len(ext) != 1:
+        chk.fail("C16.D8-finish-order", "finish|apply_extend_groups", f"{f.file}:{f.line}",
+                 f"finish must apply the extend groups exactly once (found {len(ext)} call sites)")
+        return
+    a = ext[0]
+    readers = {"best-unit lists": "BestConversions>::new", "fractions configuration": "builder::build_fractions_config"}
+    for what, sfx in readers.items():
+        bs = calls_reaching(F, f, sfx, stop=("builder::apply_extend_groups",))
+        chk.floor("C16.D8-finish-order", f"finish|{what}", len(bs), 1, f"{f.file}:{f.line}")
+        for b in bs:
+            chk.expect(f.node_dominates(a, b), "C16.D8-finish-order", f"finish|{what}", f.where(b),
+                       f"the {what} are computed before (or without) apply_extend_groups: an `extend` layer that changes a ratio, name or alias "
+                       "leaves them describing the old units (unsorted best list, stale thresholds, unresolved keys)",
+                       sample=f"{f.where(b)}: {what} built after apply_extend_groups ({f.where(a)})")
+    exp = calls_reaching(F, f, "builder::expand_si", stop=("builder::apply_extend_groups",))
+    chk.floor("C16.D8-finish-order", "finish|SI expansion", len(exp), 1, f"{f.file}:{f.line}")
+    for b in exp:
+        chk.expect(b not in f.reach_from(a) and f.node_dominates(0, b), "C16.D8-finish-order", "finish|SI expansion first", f.where(b),
+                   "units are SI-expanded after the extend groups were applied: extend entries cannot address or refresh the generated units",
+                   sample=f"{f.where(b)}: SI expansion precedes apply_extend_groups")
 
 
 def recv_name(f, op):
